@@ -400,7 +400,7 @@ IMPL_ONLY = ["name =~ '^C'", "name =~ 'C$'", "name =~ '\\\\d'", "name =~ 'C{1,2}
 def reduced_exhaustive():
     """every string of nesting depth <= 2 over a reduced vocabulary, written without and with parentheses"""
     d0 = ["protein", "water", "name CA", "index 1 to 4", "CA"]
-    ops = ["and", "or", "<", "lt", "=~", "eq"]
+    ops = ["and", "&&", "or", "<", "lt", "=~", "eq"]
     d1 = ["%s%s" % (u, x) for u in ("not ", "!") for x in d0] + ["%s %s %s" % (x, o, y) for o in ops for x in d0 for y in d0]
     out = list(d0) + list(d1)
     for u in ("not ", "!"):
@@ -712,8 +712,13 @@ def build_cases(ctx):
     for s in IMPL_ONLY:
         add(s, "impl_only", 0)
     if not quick:
-        for s in reduced_exhaustive():
+        ex = reduced_exhaustive()
+        for s in ex:
             add(s, "exhaustive_depth2", 3)
+        ctx.notes.setdefault("coverage_extra", {})["exhaustive_depth2"] = {
+            "strings": len(ex), "exhaustive": True,
+            "vocabulary": "atoms {protein, water, name CA, index 1 to 4, CA} x unary {not, !} x binary {and, &&, or, <, lt, =~, eq}, "
+                          "nesting depth <= 2 with one compound operand, written without and with parentheses"}
     return specs, cases
 
 
